@@ -490,3 +490,43 @@ pub fn c17_async(args: &Args) -> ! {
     println!("{}", json!({"executions": execs, "distinct": hashes.len(), "capped": capped, "k": k, "scenarios": parts, "violations": viol}));
     std::process::exit(0)
 }
+
+/// `va c19`: the quinn endpoint's receive path (`RecvState::poll_socket`) under receive-offload
+/// shaped batches. The in-memory socket coalesces what a GRO-capable kernel would (equal sizes, a
+/// shorter last datagram, same source) into one message with a stride and reports several messages
+/// per call; every batch must be split back into exactly the datagrams that were sent.
+pub fn c19_async(args: &Args) -> ! {
+    explore::quiet_panics();
+    let thorough = args.tier == Tier::Thorough;
+    let cx = Ctx { base: Instant::now(), agg: Mutex::new(Agg::default()) };
+    let dl = deadline(if thorough { 600 } else { 25 });
+    let k = if thorough { 2 } else { 1 };
+    let mut parts = vec![];
+    let mut hashes = std::collections::BTreeSet::new();
+    let mut execs = 0u64;
+    let mut capped = false;
+    let mut shapes: std::collections::BTreeSet<Vec<Vec<usize>>> = Default::default();
+    for (segs, burst) in [(1usize, true), (2, true), (3, true), (4, true), (10, true), (64, true), (4, false)] {
+        let mut spec = Spec::new(Scen::S7);
+        spec.gro = Some((segs, burst));
+        let (_, o) = cx.exec(&spec);
+        shapes.extend(o.batch_shapes.iter().cloned());
+        let t = explore_schedule(&cx, &spec, if thorough { o.points } else { o.points.min(400) }, 0, k, dl);
+        execs += t.executions;
+        capped |= t.capped;
+        hashes.extend(t.hashes.iter().copied());
+        parts.push(json!({"max_segments_per_message": segs, "burst_delivery": burst, "executions": t.executions, "per_k": t.per_k, "capped": t.capped, "choice_points_baseline": o.points, "multi_datagram_batch_shapes_baseline": o.batch_shapes.len()}));
+    }
+    // vacuity: some batch must have held a coalesced message with a short tail that was NOT the last message
+    let short_tail_inside = shapes.iter().filter(|b| b.iter().rev().skip(1).any(|m| m.len() > 1 && m.last() < m.first())).count();
+    let a = cx.agg.lock().unwrap();
+    let mut seen = std::collections::BTreeSet::new();
+    let viol: Vec<serde_json::Value> = a
+        .viol
+        .iter()
+        .filter(|v| seen.insert(v.2.clone()))
+        .map(|(_, _, sig, what, replay)| json!({"signature": sig, "what": what, "replay": replay}))
+        .collect();
+    println!("{}", json!({"executions": execs, "distinct": hashes.len(), "capped": capped, "k": k, "configurations": parts, "distinct_batch_shapes": shapes.len(), "batch_shape_samples": shapes.iter().take(40).collect::<Vec<_>>(), "batches_with_short_tail_before_last_message": short_tail_inside, "violations": viol}));
+    std::process::exit(0)
+}
